@@ -446,7 +446,8 @@ fn o_localtx(rng: &mut Rng, sz: Size) -> LtsMsg {
 }
 fn o_txmonitor(rng: &mut Rng, sz: Size) -> mp::txmonitor::Message {
     use mp::txmonitor::{MempoolSizeAndCapacity, Message::*};
-    match rng.below(11) {
+    // ResponseNextTx (with and without a transaction) is the one variant whose shape depends on the array length
+    match if rng.chance(1, 3) { 7 + rng.below(2) } else { rng.below(11) } {
         0 => Acquire,
         1 => AwaitAcquire,
         2 => Acquired(small_u64(rng)),
@@ -565,11 +566,56 @@ fn old_proto<M: Fragment + Debug + Send + Sync + 'static>(name: &'static str, pr
     }
 }
 
-/// is `b` exactly one well-formed CBOR item for minicbor's skipper?
-fn single_item(b: &[u8]) -> bool {
-    let mut d = minicbor::Decoder::new(b);
-    d.skip().is_ok() && d.position() == b.len()
+/// strict RFC 8949 well-formedness: length of the first item of `b`, if it is complete and well-formed
+/// (minicbor's own skip() is lenient: it lets a break byte stand for an element of a definite array)
+fn item_len(b: &[u8]) -> Option<usize> {
+    // stack entries: Some(n) = n items still expected, None = indefinite container (until break)
+    let mut stack: Vec<Option<u64>> = vec![Some(1)];
+    let mut i = 0usize;
+    while let Some(top) = stack.last().copied() {
+        if top == Some(0) { stack.pop(); continue; }
+        let ib = *b.get(i)?;
+        i += 1;
+        if ib == 0xff {
+            if top.is_some() { return None; }
+            stack.pop();
+            continue;
+        }
+        if let Some(Some(n)) = stack.last_mut() { *n -= 1; }
+        let (major, info) = (ib >> 5, ib & 31);
+        let arg: Option<u64> = match info {
+            0..=23 => Some(info as u64),
+            24 => { let v = *b.get(i)? as u64; i += 1; Some(v) }
+            25 => { let v = b.get(i..i + 2)?; i += 2; Some(u16::from_be_bytes([v[0], v[1]]) as u64) }
+            26 => { let v = b.get(i..i + 4)?; i += 4; Some(u32::from_be_bytes([v[0], v[1], v[2], v[3]]) as u64) }
+            27 => { let v = b.get(i..i + 8)?; i += 8; Some(u64::from_be_bytes([v[0], v[1], v[2], v[3], v[4], v[5], v[6], v[7]])) }
+            31 => None,
+            _ => return None,
+        };
+        match (major, arg) {
+            (0, Some(_)) | (1, Some(_)) | (7, Some(_)) => {}
+            (2, Some(n)) | (3, Some(n)) => { let n = usize::try_from(n).ok()?; b.get(i..i.checked_add(n)?)?; i += n; }
+            (2, None) | (3, None) => loop {
+                let cb = *b.get(i)?; i += 1;
+                if cb == 0xff { break; }
+                if cb >> 5 != major { return None; }
+                let n = match cb & 31 { x @ 0..=23 => x as usize, 24 => { let v = *b.get(i)? as usize; i += 1; v }
+                    25 => { let v = b.get(i..i + 2)?; i += 2; u16::from_be_bytes([v[0], v[1]]) as usize }
+                    26 => { let v = b.get(i..i + 4)?; i += 4; u32::from_be_bytes([v[0], v[1], v[2], v[3]]) as usize }
+                    _ => return None };
+                b.get(i..i.checked_add(n)?)?; i += n;
+            },
+            (4, Some(n)) => stack.push(Some(n)),
+            (5, Some(n)) => stack.push(Some(n.checked_mul(2)?)),
+            (4, None) | (5, None) => stack.push(None),
+            (6, Some(_)) => stack.push(Some(1)),
+            _ => return None,
+        }
+    }
+    Some(i)
 }
+/// is `b` exactly one well-formed CBOR item?
+fn single_item(b: &[u8]) -> bool { item_len(b) == Some(b.len()) }
 
 // ------------------------------------------------------------------ splitting
 fn cut(stream: &[u8], cuts: &[usize]) -> Vec<Vec<u8>> {
@@ -720,7 +766,7 @@ fn main() {
                 let cutlen = rng.range(1, stream.len() as u64 - 1) as usize;
                 let mut segs = cut(&stream[..cutlen], &random_cuts(&mut rng, cutlen));
                 let bad = rng.chance(1, 2);
-                if bad { segs.push(vec![0xff]); }
+                if bad { segs.push(vec![0x1c]); }
                 let res = (p.run)(&rt, as_server, &segs, cap).unwrap_or_else(|e| tool_fail(e));
                 runs += 1;
                 // a truncated prefix must deliver a prefix of the messages (and never a wrong one)
@@ -862,7 +908,7 @@ fn main() {
             if to_model && !args.oracle_only && stream.len() > 1 && rng.chance(1, 2) {
                 let cutlen = rng.range(1, stream.len() as u64 - 1) as usize;
                 let mut segs = tagseg(cut(&stream[..cutlen], &random_cuts(&mut rng, cutlen)));
-                if rng.chance(1, 3) { segs.push((raw, vec![0xff])); }
+                if rng.chance(1, 3) { segs.push((raw, vec![0x1c])); }
                 let res = run_new(&rt, &segs).unwrap_or_else(|e| tool_fail(e));
                 runs += 1;
                 emit_case(&format!("trivial-new:{}:truncated", name), &format!("(CNew {} {} {} {})", coq_tagged(&segs), coq_tagged(&res.out), coq_tagged(&res.fin), res.status));
